@@ -38,6 +38,18 @@ pub struct ServerCodec {
 
 impl ServerCodec {
     fn decode_packet(&mut self, src: &mut BytesMut) -> Result<Option<InboundIn>, anyhow::Error> {
+        // address | length | CRLF | payload: wait until the whole frame is buffered
+        if src.remaining() < 2 {
+            return Ok(None);
+        }
+        let addr_len = address::try_decode_at(src, 0)?;
+        if src.remaining() < addr_len + 2 + trojan::CR_LF.len() {
+            return Ok(None);
+        }
+        let len = u16::from_be_bytes([src[addr_len], src[addr_len + 1]]) as usize;
+        if src.remaining() < addr_len + 2 + trojan::CR_LF.len() + len {
+            return Ok(None);
+        }
         let peer_addr = address::decode(src)?;
         let len = src.get_u16();
         src.advance(trojan::CR_LF.len());
@@ -56,10 +68,10 @@ impl Decoder for ServerCodec {
         }
         match self.state {
             CodecState::Header => {
-                if src.remaining() < 60 || src.remaining() < 59 + address::try_decode_at(src, 59)? {
+                if src.remaining() < 61 || src.remaining() < 59 + address::try_decode_at(src, 59)? + trojan::CR_LF.len() {
                     return Ok(None);
                 }
-                if src[56] != b'\r' {
+                if src[56] != b'\r' || !src[..56].is_ascii() {
                     bail!("not trojan protocol");
                 }
                 let key = src.split_to(56);
